@@ -203,8 +203,11 @@ fn tok_text(tt: &proc_macro2::TokenTree) -> String {
 /// Compact token string: tokens concatenated without separators; literal tokens are rendered canonically
 /// (see `canon_literal`).
 pub fn tsc<T: ToTokens>(t: &T) -> String {
-    fn go(ts: proc_macro2::TokenStream, out: &mut String) {
-        for tt in ts {
+    // a trailing comma before a closing delimiter is layout (rustfmt adds it to multi-line lists and removes it from
+    // single-line ones): it is not part of the compact text
+    fn go(ts: proc_macro2::TokenStream, out: &mut String, in_group: bool) {
+        let mut it = ts.into_iter().peekable();
+        while let Some(tt) = it.next() {
             match tt {
                 proc_macro2::TokenTree::Group(g) => {
                     let (o, c) = match g.delimiter() {
@@ -214,15 +217,16 @@ pub fn tsc<T: ToTokens>(t: &T) -> String {
                         proc_macro2::Delimiter::None => ("", ""),
                     };
                     out.push_str(o);
-                    go(g.stream(), out);
+                    go(g.stream(), out, !o.is_empty());
                     out.push_str(c);
                 }
+                proc_macro2::TokenTree::Punct(ref p) if in_group && p.as_char() == ',' && it.peek().is_none() => {}
                 other => out.push_str(&tok_text(&other)),
             }
         }
     }
     let mut out = String::new();
-    go(t.to_token_stream(), &mut out);
+    go(t.to_token_stream(), &mut out, false);
     out
 }
 
@@ -834,8 +838,16 @@ pub fn flat_tokens(ts: proc_macro2::TokenStream, out: &mut Vec<String>) {
 }
 
 pub fn tsx<T: ToTokens>(t: &T) -> Compact {
-    let mut toks = vec![];
-    flat_tokens(t.to_token_stream(), &mut toks);
+    let mut all = vec![];
+    flat_tokens(t.to_token_stream(), &mut all);
+    // trailing commas before a closing delimiter are layout (see `tsc`)
+    let mut toks: Vec<String> = Vec::with_capacity(all.len());
+    for (i, k) in all.iter().enumerate() {
+        if k == "," && all.get(i + 1).map_or(false, |n| n == ")" || n == "]" || n == "}") {
+            continue;
+        }
+        toks.push(k.clone());
+    }
     let mut text = String::new();
     let mut offs = vec![];
     for k in &toks {
@@ -1069,12 +1081,41 @@ fn frag_tokens(frag: &str) -> Vec<String> {
     out
 }
 
+/// A fragment with the layout commas removed (`,)` `,]` `,}`), as the compact text has them removed.
+pub fn canon_frag(frag: &str) -> std::borrow::Cow<'_, str> {
+    thread_local! {
+        static RE: regex::Regex = regex::Regex::new(r",\s*([)\]}])").unwrap();
+    }
+    RE.with(|re| re.replace_all(frag, "$1"))
+}
+
 impl Compact {
-    fn token_mode(frag: &str) -> bool {
-        frag.starts_with('§')
+    /// A fragment that ends with `,` anchors the end of a list element / match arm: in the compact text the last
+    /// element has no comma, so the closing delimiter is accepted in its place.
+    fn alternatives(frag: &str) -> Vec<String> {
+        let f = canon_frag(frag).to_string();
+        match f.strip_suffix(',') {
+            Some(base) if !Self::token_mode(&f) => vec![f.clone(), format!("{}}}", base), format!("{})", base), format!("{}]", base)],
+            _ => vec![f],
+        }
     }
     /// token index of the first match
     pub fn find(&self, frag: &str) -> Option<usize> {
+        Self::alternatives(frag).iter().filter_map(|f| self.find_one(f)).min()
+    }
+    pub fn starts_with(&self, frag: &str) -> bool {
+        Self::alternatives(frag).iter().any(|f| self.starts_with_one(f))
+    }
+    pub fn ends_with(&self, frag: &str) -> bool {
+        self.ends_with_one(&canon_frag(frag))
+    }
+    pub fn is(&self, frag: &str) -> bool {
+        self.is_one(&canon_frag(frag))
+    }
+    fn token_mode(frag: &str) -> bool {
+        frag.starts_with('§')
+    }
+    fn find_one(&self, frag: &str) -> Option<usize> {
         if Self::token_mode(frag) {
             let n = frag_tokens(frag);
             (0..self.toks.len()).find(|&i| match_at(&self.toks, i, &n))
@@ -1093,6 +1134,7 @@ impl Compact {
         self.find(frag).is_some()
     }
     pub fn matches(&self, frag: &str) -> std::vec::IntoIter<usize> {
+        let frag = &*canon_frag(frag);
         let v: Vec<usize> = if Self::token_mode(frag) {
             let n = frag_tokens(frag);
             (0..self.toks.len()).filter(|&i| match_at(&self.toks, i, &n)).collect()
@@ -1101,14 +1143,14 @@ impl Compact {
         };
         v.into_iter()
     }
-    pub fn starts_with(&self, frag: &str) -> bool {
+    fn starts_with_one(&self, frag: &str) -> bool {
         if Self::token_mode(frag) {
             match_at(&self.toks, 0, &frag_tokens(frag))
         } else {
             self.text.starts_with(frag) || alpha_match_at(&self.toks, 0, frag).is_some()
         }
     }
-    pub fn ends_with(&self, frag: &str) -> bool {
+    fn ends_with_one(&self, frag: &str) -> bool {
         if Self::token_mode(frag) {
             let n = frag_tokens(frag);
             n.len() <= self.toks.len() && match_at(&self.toks, self.toks.len() - n.len(), &n)
@@ -1116,7 +1158,7 @@ impl Compact {
             self.text.ends_with(frag) || (0..self.toks.len()).any(|i| alpha_match_at(&self.toks, i, frag) == Some(self.toks.len() - i))
         }
     }
-    pub fn is(&self, frag: &str) -> bool {
+    fn is_one(&self, frag: &str) -> bool {
         if Self::token_mode(frag) {
             let n = frag_tokens(frag);
             n.len() == self.toks.len() && match_at(&self.toks, 0, &n)
